@@ -428,3 +428,383 @@ Proof.
     destruct (Nat.ltb _ _); [discriminate|]. cbn in E. injection E as _ <-. reflexivity.
 Qed.
 End Extras.
+
+(* ------------------------------------------------------------------------------------------------------------------ *)
+(* the loader under DebugTrail.ALL: errors only accumulate, and when none was added every field was read from its path *)
+Section LoaderAll.
+Variable info : finfos.
+Variable pol : policy.
+
+Definition all_ok (c : crown) : Prop :=
+  is_leaf c = false ->
+  forall p d s s' x, all info pol c p d s = GoA s' x ->
+    exists es, errs s' = errs s ++ es /\
+               (es = [] -> exists vals, fields s' = fields s ++ vals /\ Forall2 (sourced info d) (leaves c) vals).
+
+Lemma app_nil_inv {A} (a b : list A) : a ++ b = [] -> a = [] /\ b = [].
+Proof. destruct a; cbn; [auto|discriminate]. Qed.
+
+Lemma cons_app_not_nil {A} (e : A) (l : list A) : [e] ++ l <> [].
+Proof. discriminate. Qed.
+
+Lemma dict_all_reads m p d : forall rest,
+  Forall (fun kc => all_ok (snd kc)) rest ->
+  forall s x0 nf s' x, dict_all info (all info pol) m p d rest s x0 nf = GoA s' x ->
+    exists es, errs s' = errs s ++ es /\
+      (es = [] -> nf = false ->
+       exists vals, fields s' = fields s ++ vals /\
+                    Forall2 (sourced info d) (flat_map (fun kc => under (KS (fst kc)) (leaves (snd kc))) rest) vals).
+Proof.
+  induction rest as [|[k sub] r IH]; intros Hall s x0 nf s' x Hx; cbn [dict_all] in Hx.
+  - injection Hx as <- _. exists []. split; [now rewrite app_nil_r|]. intros _ _. exists []. split; [now rewrite app_nil_r|constructor].
+  - inversion Hall as [|a b Hsub Hr]; subst. cbn [flat_map fst snd].
+    (* a step that adds an error: the conclusion about values is vacuous *)
+    assert (Herr : forall e x1 nf1, dict_all info (all info pol) m p d r (add_err e s) x1 nf1 = GoA s' x ->
+              exists es, errs s' = errs s ++ es /\
+                (es = [] -> nf = false -> exists vals, fields s' = fields s ++ vals /\
+                   Forall2 (sourced info d) (under (KS k) (leaves sub) ++ flat_map (fun kc => under (KS (fst kc)) (leaves (snd kc))) r) vals)).
+    { intros e x1 nf1 Hr'. destruct (IH Hr _ _ _ _ _ Hr') as [es [He _]]. cbn [add_err errs] in He.
+      exists ([e] ++ es). split; [now rewrite He, <- app_assoc|]. intro Hn. exfalso. exact (cons_app_not_nil e es Hn). }
+    destruct (dget d k) as [v| |] eqn:Eg; [| |discriminate].
+    + destruct sub as [i| |m'|m'].
+      * destruct v; try (exact (Herr _ _ _ Hx)).
+        destruct (IH Hr _ _ _ _ _ Hx) as [es [He Hv]]. exists es. split; [exact He|]. intros Hn Hnf.
+        destruct (Hv Hn Hnf) as [vals [Hf HF]]. cbn [add_field fields] in Hf.
+        exists ((i, n) :: vals). split; [now rewrite Hf, <- app_assoc|]. cbn [leaves under map app]. constructor; [|exact HF].
+        split; [reflexivity|]. left. cbn [fst get_data]. unfold dget in Eg. destruct d; try discriminate.
+        destruct (lookup (KS k) kvs); [|discriminate]. injection Eg as ->. reflexivity.
+      * cbn [leaves under map app]. exact (IH Hr _ _ _ _ _ Hx).
+      * destruct (all info pol (CDict m') (p ++ [KS k]) v s) as [s1 sx|] eqn:Es; [|exact (Herr _ _ _ Hx)].
+        destruct (Hsub eq_refl _ _ _ _ _ Es) as [e1 [He1 Hv1]]. destruct (IH Hr _ _ _ _ _ Hx) as [e2 [He2 Hv2]].
+        exists (e1 ++ e2). split; [now rewrite He2, He1, <- app_assoc|]. intros Hn Hnf. apply app_nil_inv in Hn. destruct Hn as [-> ->].
+        destruct (Hv1 eq_refl) as [v1 [Hf1 HF1]]. destruct (Hv2 eq_refl Hnf) as [v2 [Hf2 HF2]].
+        exists (v1 ++ v2). split; [now rewrite Hf2, Hf1, <- app_assoc|]. apply Forall2_app; [|exact HF2].
+        exact (Forall2_under_key info d k v _ _ Eg HF1).
+      * destruct (all info pol (CList m') (p ++ [KS k]) v s) as [s1 sx|] eqn:Es; [|exact (Herr _ _ _ Hx)].
+        destruct (Hsub eq_refl _ _ _ _ _ Es) as [e1 [He1 Hv1]]. destruct (IH Hr _ _ _ _ _ Hx) as [e2 [He2 Hv2]].
+        exists (e1 ++ e2). split; [now rewrite He2, He1, <- app_assoc|]. intros Hn Hnf. apply app_nil_inv in Hn. destruct Hn as [-> ->].
+        destruct (Hv1 eq_refl) as [v1 [Hf1 HF1]]. destruct (Hv2 eq_refl Hnf) as [v2 [Hf2 HF2]].
+        exists (v1 ++ v2). split; [now rewrite Hf2, Hf1, <- app_assoc|]. apply Forall2_app; [|exact HF2].
+        exact (Forall2_under_key info d k v _ _ Eg HF1).
+    + (* missing key *)
+      assert (Hmiss : dict_all info (all info pol) m p d r
+                        (if nf then s else add_err (CrownSem.E (NoReqFields (missing_required info m d)) p) s) x0 true = GoA s' x ->
+                exists es, errs s' = errs s ++ es /\
+                  (es = [] -> nf = false -> exists vals, fields s' = fields s ++ vals /\
+                     Forall2 (sourced info d) (under (KS k) (leaves sub) ++ flat_map (fun kc => under (KS (fst kc)) (leaves (snd kc))) r) vals)).
+      { destruct nf.
+        - intro Hr'. destruct (IH Hr _ _ _ _ _ Hr') as [es [He _]]. exists es. split; [exact He|]. intros _ Hc. discriminate.
+        - exact (Herr _ _ _). }
+      destruct sub as [i| |m'|m']; try (exact (Hmiss Hx)).
+      destruct (fi_required (info i)) eqn:Er; [exact (Hmiss Hx)|].
+      destruct (IH Hr _ _ _ _ _ Hx) as [es [He Hv]]. exists es. split; [exact He|]. intros Hn Hnf.
+      destruct (Hv Hn Hnf) as [vals [Hf HF]]. cbn [add_field fields] in Hf.
+      exists ((i, fi_default (info i)) :: vals). split; [now rewrite Hf, <- app_assoc|]. cbn [leaves under map app].
+      constructor; [|exact HF]. split; [reflexivity|]. right. cbn [fst snd]. split; [exact Er|]. split; [reflexivity|].
+      cbn [get_data]. unfold dget in Eg. destruct d; try discriminate. destruct (lookup (KS k) kvs); [discriminate|reflexivity].
+Qed.
+
+Lemma list_all_reads p d : forall rest,
+  Forall all_ok rest ->
+  forall i s s' x, list_all (all info pol) p d rest i s = GoA s' x ->
+    exists es, errs s' = errs s ++ es /\
+      (es = [] -> (forall j, i <= j < i + List.length rest -> nth_error rest (j - i) <> Some CNone -> lget d j <> Missing) ->
+       exists vals, fields s' = fields s ++ vals /\ Forall2 (sourced info d) (leaves_from rest i) vals).
+Proof.
+  induction rest as [|sub r IH]; intros Hall i s s' x Hx; cbn [list_all] in Hx.
+  - injection Hx as <- _. exists []. split; [now rewrite app_nil_r|]. intros _ _. exists []. split; [now rewrite app_nil_r|constructor].
+  - inversion Hall as [|a b Hsub Hr]; subst. cbn [leaves_from].
+    assert (Hshift : forall (P : nat -> Prop), (forall j, i <= j < i + List.length (sub :: r) -> nth_error (sub :: r) (j - i) <> Some CNone -> P j) ->
+              forall j, Datatypes.S i <= j < Datatypes.S i + List.length r -> nth_error r (j - Datatypes.S i) <> Some CNone -> P j).
+    { intros P H j Hj Hn. apply H; [cbn [List.length]; lia|]. replace (j - i) with (Datatypes.S (j - Datatypes.S i)) by lia. exact Hn. }
+    assert (Herr : forall e, list_all (all info pol) p d r (Datatypes.S i) (add_err e s) = GoA s' x ->
+              exists es, errs s' = errs s ++ es /\
+                (es = [] -> (forall j, i <= j < i + List.length (sub :: r) -> nth_error (sub :: r) (j - i) <> Some CNone -> lget d j <> Missing) ->
+                 exists vals, fields s' = fields s ++ vals /\ Forall2 (sourced info d) (under (KI i) (leaves sub) ++ leaves_from r (Datatypes.S i)) vals)).
+    { intros e Hr'. destruct (IH Hr _ _ _ _ Hr') as [es [He _]]. cbn [add_err errs] in He.
+      exists ([e] ++ es). split; [now rewrite He, <- app_assoc|]. intro Hn. exfalso. exact (cons_app_not_nil e es Hn). }
+    destruct sub as [id| |m'|m'].
+    + destruct (lget d i) as [v| |] eqn:Eg; [| |discriminate].
+      * destruct v; try (exact (Herr _ Hx)).
+        destruct (IH Hr _ _ _ _ Hx) as [es [He Hv]]. exists es. split; [exact He|]. intros Hn Hpres.
+        destruct (Hv Hn (Hshift _ Hpres)) as [vals [Hf HF]]. cbn [add_field fields] in Hf.
+        exists ((id, n) :: vals). split; [now rewrite Hf, <- app_assoc|]. cbn [leaves under map app]. constructor; [|exact HF].
+        split; [reflexivity|]. left. cbn [fst get_data]. unfold lget in Eg. destruct d; try discriminate.
+        destruct (nth_error l i); [|discriminate]. injection Eg as ->. reflexivity.
+      * (* a missing item is reported by the length check: excluded by the premise *)
+        destruct (IH Hr _ _ _ _ Hx) as [es [He Hv]]. exists es. split; [exact He|]. intros Hn Hpres. exfalso.
+        apply (Hpres i); [cbn [List.length]; lia| |exact Eg]. rewrite Nat.sub_diag. cbn. discriminate.
+    + cbn [leaves under map app]. destruct (IH Hr _ _ _ _ Hx) as [es [He Hv]]. exists es. split; [exact He|]. intros Hn Hpres.
+      exact (Hv Hn (Hshift _ Hpres)).
+    + destruct (lget d i) as [v| |] eqn:Eg; [| |discriminate].
+      * destruct (all info pol (CDict m') (p ++ [KI i]) v s) as [s1 sx|] eqn:Es; [|exact (Herr _ Hx)].
+        destruct (Hsub eq_refl _ _ _ _ _ Es) as [e1 [He1 Hv1]]. destruct (IH Hr _ _ _ _ Hx) as [e2 [He2 Hv2]].
+        exists (e1 ++ e2). split; [now rewrite He2, He1, <- app_assoc|]. intros Hn Hpres. apply app_nil_inv in Hn. destruct Hn as [-> ->].
+        destruct (Hv1 eq_refl) as [v1 [Hf1 HF1]]. destruct (Hv2 eq_refl (Hshift _ Hpres)) as [v2 [Hf2 HF2]].
+        exists (v1 ++ v2). split; [now rewrite Hf2, Hf1, <- app_assoc|]. apply Forall2_app; [|exact HF2].
+        exact (Forall2_under_index info d i v _ _ Eg HF1).
+      * destruct (IH Hr _ _ _ _ Hx) as [es [He Hv]]. exists es. split; [exact He|]. intros Hn Hpres. exfalso.
+        apply (Hpres i); [cbn [List.length]; lia| |exact Eg]. rewrite Nat.sub_diag. cbn. discriminate.
+    + destruct (lget d i) as [v| |] eqn:Eg; [| |discriminate].
+      * destruct (all info pol (CList m') (p ++ [KI i]) v s) as [s1 sx|] eqn:Es; [|exact (Herr _ Hx)].
+        destruct (Hsub eq_refl _ _ _ _ _ Es) as [e1 [He1 Hv1]]. destruct (IH Hr _ _ _ _ Hx) as [e2 [He2 Hv2]].
+        exists (e1 ++ e2). split; [now rewrite He2, He1, <- app_assoc|]. intros Hn Hpres. apply app_nil_inv in Hn. destruct Hn as [-> ->].
+        destruct (Hv1 eq_refl) as [v1 [Hf1 HF1]]. destruct (Hv2 eq_refl (Hshift _ Hpres)) as [v2 [Hf2 HF2]].
+        exists (v1 ++ v2). split; [now rewrite Hf2, Hf1, <- app_assoc|]. apply Forall2_app; [|exact HF2].
+        exact (Forall2_under_index info d i v _ _ Eg HF1).
+      * destruct (IH Hr _ _ _ _ Hx) as [es [He Hv]]. exists es. split; [exact He|]. intros Hn Hpres. exfalso.
+        apply (Hpres i); [cbn [List.length]; lia| |exact Eg]. rewrite Nat.sub_diag. cbn. discriminate.
+Qed.
+
+Lemma lget_in_range l j : j < List.length l -> lget (VList l) j <> Missing.
+Proof.
+  intro H. unfold lget. destruct (nth_error l j) eqn:E; [discriminate|]. apply nth_error_None in E. lia.
+Qed.
+
+Theorem loader_all_reads_exact_paths : forall c, all_ok c.
+Proof.
+  induction c as [i| |m IH|m IH] using crown_ind'; unfold all_ok; intros Hb p d s s' x Hx; try discriminate; cbn [all] in Hx.
+  - (* mapping node *)
+    destruct (match m with [] => (match d with VDict _ => GoA s [] | _ => BadA end)
+                         | _ => dict_all info (all info pol) m p d m s [] false end) as [s1 x1|] eqn:Eg; [|discriminate].
+    assert (Hinner : exists es, errs s1 = errs s ++ es /\
+               (es = [] -> exists vals, fields s1 = fields s ++ vals /\ Forall2 (sourced info d) (leaves (CDict m)) vals)).
+    { destruct m as [|kc r].
+      - destruct d; try discriminate. injection Eg as <- _. exists []. split; [now rewrite app_nil_r|]. intros _. exists [].
+        split; [now rewrite app_nil_r|constructor].
+      - destruct (dict_all_reads (kc :: r) p d (kc :: r) IH s [] false s1 x1 Eg) as [es [He Hv]].
+        exists es. split; [exact He|]. intro Hn. exact (Hv Hn eq_refl). }
+    destruct Hinner as [es [He Hv]].
+    destruct pol.
+    + injection Hx as <- _. exists es. split; [exact He|exact Hv].
+    + destruct (unknown_keys m d) as [|k ks].
+      * injection Hx as <- _. exists es. split; [exact He|exact Hv].
+      * injection Hx as <- _. cbn [add_err errs fields]. exists (es ++ [CrownSem.E (ExtraFields (k :: ks)) p]).
+        split; [now rewrite He, <- app_assoc|]. intro Hn. apply app_nil_inv in Hn. destruct Hn as [_ Hn]. discriminate.
+    + injection Hx as <- _. exists es. split; [exact He|exact Hv].
+  - (* list node *)
+    destruct d; try discriminate.
+    destruct (list_all (all info pol) p (VList l) m 0 s) as [s1 x1|] eqn:Eg; [|discriminate].
+    destruct (list_all_reads p (VList l) m IH 0 s s1 x1 Eg) as [es [He Hv]].
+    destruct (Nat.ltb (data_len (VList l)) (List.length m)) eqn:Elen.
+    + injection Hx as <- _. cbn [add_err errs]. exists (es ++ [CrownSem.E (NoReqItems (List.length m)) p]).
+      split; [now rewrite He, <- app_assoc|]. intro Hn. apply app_nil_inv in Hn. destruct Hn as [_ Hn]. discriminate.
+    + apply Nat.ltb_ge in Elen. cbn [data_len] in Elen.
+      assert (Hpres : forall j, 0 <= j < 0 + List.length m -> nth_error m (j - 0) <> Some CNone -> lget (VList l) j <> Missing)
+        by (intros j Hj _; apply lget_in_range; lia).
+      destruct (is_forbid pol && Nat.ltb (List.length m) (data_len (VList l))).
+      * injection Hx as <- _. cbn [add_err errs]. exists (es ++ [CrownSem.E (ExtraItems (List.length m)) p]).
+        split; [now rewrite He, <- app_assoc|]. intro Hn. apply app_nil_inv in Hn. destruct Hn as [_ Hn]. discriminate.
+      * injection Hx as <- _. exists es. split; [exact He|]. intro Hn. destruct (Hv Hn Hpres) as [vals [Hf HF]].
+        exists vals. split; [exact Hf|]. rewrite leaves_list. exact HF.
+Qed.
+
+(* the statement in terms of [load]: under ALL a successful load read every field from its path and nothing else *)
+Corollary load_all_reads_exact_paths : forall c d fs x, is_leaf c = false ->
+  load info pol All c d = Loaded fs x -> Forall2 (sourced info d) (leaves c) fs.
+Proof.
+  intros c d fs x Hb H. unfold load in H.
+  destruct (all info pol c [] d {| fields := []; errs := [] |}) as [s' x'|] eqn:E; [|discriminate].
+  destruct (errs s') eqn:Ee; [|discriminate]. injection H as <- _.
+  destruct (loader_all_reads_exact_paths c Hb _ _ _ _ _ E) as [es [He Hv]]. cbn [errs fields] in He, Hv.
+  rewrite Ee in He. cbn in He. subst es. destruct (Hv eq_refl) as [vals [Hf HF]]. cbn in Hf. now rewrite Hf.
+Qed.
+End LoaderAll.
+
+(* the same statement for every debug mode, in terms of [load] *)
+Theorem load_reads_exact_paths : forall info pol md c d fs x, is_leaf c = false ->
+  load info pol md c d = Loaded fs x -> Forall2 (sourced info d) (leaves c) fs.
+Proof.
+  intros info pol md c d fs x Hb H. destruct md; [| |exact (load_all_reads_exact_paths info pol c d fs x Hb H)].
+  - unfold load in H. destruct (first info pol Disable c [] d []) as [f x'|e] eqn:E; [|discriminate]. injection H as <- _.
+    destruct (loader_reads_exact_paths info pol Disable c Hb _ _ _ _ _ E) as [vals [-> HF]]. exact HF.
+  - unfold load in H. destruct (first info pol First c [] d []) as [f x'|e] eqn:E; [|discriminate]. injection H as <- _.
+    destruct (loader_reads_exact_paths info pol First c Hb _ _ _ _ _ E) as [vals [-> HF]]. exact HF.
+Qed.
+
+(* ------------------------------------------------------------------------------------------------------------------ *)
+(* round trip through a crown: loading what the dumper wrote gives back every field - in DISABLE and FIRST mode, under
+   every extra policy, with omit_default in force *)
+Section RoundTrip.
+Variable info : finfos.
+Variable pol : policy.
+Variable val : nat -> nat.                    (* the object: field -> value *)
+Variable omit : nat -> bool.
+Variable default : nat -> nat.
+(* a sieve exists only for an optional field, and it compares with the default the loader would supply *)
+Hypothesis omit_ok : forall i, omit i = true -> fi_required (info i) = false /\ fi_default (info i) = default i.
+
+Notation value := (fun i => Some (val i)).
+Notation dumpc := (dump value omit default).
+Notation om := (omitted value omit default).
+
+Definition expected (c : crown) : list (nat * nat) := map (fun qi => (snd qi, val (snd qi))) (leaves c).
+
+Lemma expected_under k l : map (fun qi : path * nat => (snd qi, val (snd qi))) (under k l) = map (fun qi => (snd qi, val (snd qi))) l.
+Proof. unfold under. rewrite map_map. reflexivity. Qed.
+
+Lemma dump_total : forall c, exists d, dumpc c = Some d.
+Proof.
+  induction c as [i| |m IH|m IH] using crown_ind'; cbn [dump]; try (eexists; reflexivity).
+  - assert (H : exists kvs, dump_dict value omit default dumpc m = Some kvs).
+    { induction IH as [|[k sub] r Hsub _ IHr]; [eexists; reflexivity|]. destruct IHr as [t Ht]. cbn [dump_dict]. rewrite Ht.
+      cbn [snd] in Hsub. destruct Hsub as [v Hv]. destruct sub as [i| |m'|m'].
+      - destruct (om i); eexists; reflexivity.
+      - rewrite Hv. eexists; reflexivity.
+      - rewrite Hv. eexists; reflexivity.
+      - rewrite Hv. eexists; reflexivity. }
+    destruct H as [kvs ->]. eexists; reflexivity.
+  - assert (H : exists vs, dump_list dumpc m = Some vs).
+    { induction IH as [|sub r [v Hv] _ [t Ht]]; [eexists; reflexivity|]. cbn [dump_list]. rewrite Hv, Ht. eexists; reflexivity. }
+    destruct H as [vs ->]. eexists; reflexivity.
+Qed.
+
+(* what is found under each key of a dumped mapping node *)
+Lemma dump_dict_lookup : forall m kvs, NoDup (map fst m) -> dump_dict value omit default dumpc m = Some kvs ->
+  forall k sub, In (k, sub) m ->
+    lookup (KS k) kvs = match sub with
+                        | CField i => if om i then None else Some (VInt (val i))
+                        | _ => dumpc sub
+                        end.
+Proof.
+  induction m as [|[k0 sub0] r IH]; intros kvs Hnd E k sub Hin; [destruct Hin|].
+  cbn [map fst] in Hnd. inversion Hnd as [|a b Hk Hr]; subst. cbn [dump_dict] in E.
+  destruct (dump_dict value omit default dumpc r) as [t|] eqn:Er; [|destruct sub0; discriminate].
+  assert (Hfresh : lookup (KS k0) t = None).
+  { destruct (lookup (KS k0) t) as [w|] eqn:El; [|reflexivity]. exfalso. apply Hk.
+    exact (dump_dict_keys value omit default r t Er k0 (lookup_KS_in k0 t w El)). }
+  destruct Hin as [Hin|Hin].
+  - injection Hin as <- <-. destruct sub0 as [i| |m'|m'].
+    + destruct (om i); injection E as <-; [exact Hfresh|]. cbn [lookup key_eqb]. now rewrite String.eqb_refl.
+    + cbn [dump] in E |- *. injection E as <-. cbn [lookup key_eqb]. now rewrite String.eqb_refl.
+    + destruct (dumpc (CDict m')) as [v|]; [|discriminate]. injection E as <-. cbn [lookup key_eqb]. now rewrite String.eqb_refl.
+    + destruct (dumpc (CList m')) as [v|]; [|discriminate]. injection E as <-. cbn [lookup key_eqb]. now rewrite String.eqb_refl.
+  - assert (Hne : k <> k0) by (intro; subst; apply Hk; apply in_map_iff; exists (k0, sub); auto).
+    rewrite <- (IH t Hr eq_refl k sub Hin).
+    destruct sub0 as [i| |m'|m'].
+    + destruct (om i); injection E as <-; [reflexivity|]. exact (lookup_cons_other k k0 _ t Hne).
+    + cbn [dump] in E. injection E as <-. exact (lookup_cons_other k k0 _ t Hne).
+    + destruct (dumpc (CDict m')) as [v|]; [|discriminate]. injection E as <-. exact (lookup_cons_other k k0 _ t Hne).
+    + destruct (dumpc (CList m')) as [v|]; [|discriminate]. injection E as <-. exact (lookup_cons_other k k0 _ t Hne).
+Qed.
+
+Lemma dumped_has_no_unknown_keys m kvs : dump_dict value omit default dumpc m = Some kvs -> unknown_items m (VDict kvs) = [].
+Proof.
+  intro E. unfold unknown_items.
+  assert (H : forall kv, In kv kvs -> known m (fst kv) = true).
+  { intros [k v] Hin. cbn [fst].
+    assert (Hk : exists s, k = KS s).
+    { clear -E Hin. revert kvs E Hin. induction m as [|[k0 sub0] r IH]; intros kvs E Hin; cbn [dump_dict] in E.
+      - injection E as <-. destruct Hin.
+      - destruct (dump_dict value omit default dumpc r) as [t|] eqn:Er; [|destruct sub0; discriminate].
+        assert (Hc : kvs = t \/ exists w, kvs = (KS k0, w) :: t).
+        { destruct sub0 as [i| |m'|m'].
+          - destruct (om i); injection E as <-; [left; reflexivity|right; eexists; reflexivity].
+          - destruct (dumpc CNone); [injection E as <-; right; eexists; reflexivity|discriminate].
+          - destruct (dumpc (CDict m')); [injection E as <-; right; eexists; reflexivity|discriminate].
+          - destruct (dumpc (CList m')); [injection E as <-; right; eexists; reflexivity|discriminate]. }
+        destruct Hc as [->|[w ->]]; [exact (IH t eq_refl Hin)|]. destruct Hin as [Hin|Hin]; [injection Hin as <- _; eexists; reflexivity|exact (IH t eq_refl Hin)]. }
+    destruct Hk as [s ->]. unfold known. apply existsb_exists.
+    assert (Hs : In s (map fst m)).
+    { apply (dump_dict_keys value omit default m kvs E s). change (KS s) with (fst (KS s, v)). apply in_map. exact Hin. }
+    apply in_map_iff in Hs. destruct Hs as [[k' c'] [Hk' Hin']]. cbn [fst] in Hk'. subst. exists (s, c'). split; [exact Hin'|].
+    cbn [key_eqb fst]. apply String.eqb_refl. }
+  clear E. induction kvs as [|kv r IHr]; [reflexivity|]. cbn [filter]. rewrite (H kv (or_introl eq_refl)). cbn [negb].
+  apply IHr. intros kv' Hin. apply H. right. exact Hin.
+Qed.
+
+Lemma map_flat_map_comm {A B C} (g : B -> C) (h : A -> list B) (l : list A) :
+  map g (flat_map h l) = flat_map (fun x => map g (h x)) l.
+Proof. induction l as [|a r IH]; [reflexivity|]. cbn [flat_map]. now rewrite map_app, IH. Qed.
+
+Definition rt_ok (md : mode) (c : crown) : Prop :=
+  wf c -> is_leaf c = false -> forall d, dumpc c = Some d -> forall p f0,
+    first info pol md c p d f0 = Go1 (f0 ++ expected c) [].
+
+Lemma om_value i : om i = true -> fi_required (info i) = false /\ fi_default (info i) = val i.
+Proof.
+  unfold omitted. intro H. apply andb_true_iff in H. destruct H as [H1 H2]. apply Nat.eqb_eq in H2.
+  destruct (omit_ok i H1) as [Hr Hd]. split; [exact Hr|congruence].
+Qed.
+
+Lemma dict_first_roundtrip md m kvs p : NoDup (map fst m) -> dump_dict value omit default dumpc m = Some kvs ->
+  forall rest, (forall kc, In kc rest -> In kc m) ->
+  Forall (fun kc => wf (snd kc)) rest -> Forall (fun kc => rt_ok md (snd kc)) rest ->
+  forall f x, dict_first info md (first info pol md) m p (VDict kvs) rest f x =
+              Go1 (f ++ flat_map (fun kc => map (fun qi => (snd qi, val (snd qi))) (under (KS (fst kc)) (leaves (snd kc)))) rest) x.
+Proof.
+  intros Hnd Ed. induction rest as [|[k sub] r IH]; intros Hin Hwf Hrt f x; cbn [dict_first flat_map].
+  - now rewrite app_nil_r.
+  - inversion Hwf as [|a b Hw Hwr]; subst. inversion Hrt as [|a b Hs Hsr]; subst. cbn [fst snd] in *.
+    assert (Hr : forall kc, In kc r -> In kc m) by (intros kc H; apply Hin; right; exact H).
+    pose proof (dump_dict_lookup m kvs Hnd Ed k sub (Hin _ (or_introl eq_refl))) as Hl.
+    unfold dget. rewrite expected_under. destruct sub as [i| |m'|m'].
+    + destruct (om i) eqn:Eo; rewrite Hl.
+      * destruct (om_value i Eo) as [Hreq Hdef]. rewrite Hreq, Hdef. rewrite (IH Hr Hwr Hsr). cbn [leaves map snd]. now rewrite <- app_assoc.
+      * rewrite (IH Hr Hwr Hsr). cbn [leaves map snd]. now rewrite <- app_assoc.
+    + rewrite Hl. cbn [dump leaves map]. exact (IH Hr Hwr Hsr f x).
+    + destruct (dump_total (CDict m')) as [v Hv]. rewrite Hl, Hv. rewrite (Hs Hw eq_refl v Hv). cbn [add_sub_extra].
+      rewrite (IH Hr Hwr Hsr). unfold expected. now rewrite <- app_assoc.
+    + destruct (dump_total (CList m')) as [v Hv]. rewrite Hl, Hv. rewrite (Hs Hw eq_refl v Hv). cbn [add_sub_extra].
+      rewrite (IH Hr Hwr Hsr). unfold expected. now rewrite <- app_assoc.
+Qed.
+
+Lemma dump_list_forall2 : forall m vs, dump_list dumpc m = Some vs -> Forall2 (fun sub v => dumpc sub = Some v) m vs.
+Proof.
+  induction m as [|sub r IH]; intros vs E; cbn [dump_list] in E; [injection E as <-; constructor|].
+  destruct (dumpc sub) as [v|] eqn:Ev; [|discriminate]. destruct (dump_list dumpc r) as [t|] eqn:Er; [|discriminate].
+  injection E as <-. constructor; [exact Ev|exact (IH t eq_refl)].
+Qed.
+
+Lemma list_first_roundtrip md n p : forall rest pre vs,
+  Forall2 (fun sub v => dumpc sub = Some v) rest vs ->
+  Forall wf rest -> Forall (rt_ok md) rest ->
+  forall f, list_first md (first info pol md) n p (VList (pre ++ vs)) rest (List.length pre) f =
+            Go1 (f ++ map (fun qi => (snd qi, val (snd qi))) (leaves_from rest (List.length pre))) [].
+Proof.
+  induction rest as [|sub r IH]; intros pre vs HF Hwf Hrt f; cbn [list_first leaves_from].
+  - now rewrite app_nil_r.
+  - inversion HF as [|a v b t Hd Ht]; subst. inversion Hwf as [|a b Hw Hwr]; subst. inversion Hrt as [|a b Hs Hsr]; subst.
+    assert (Hnext : forall f', list_first md (first info pol md) n p (VList (pre ++ v :: t)) r (Datatypes.S (List.length pre)) f' =
+                       Go1 (f' ++ map (fun qi => (snd qi, val (snd qi))) (leaves_from r (Datatypes.S (List.length pre)))) []).
+    { intro f'. specialize (IH (pre ++ [v]) t Ht Hwr Hsr f'). rewrite <- app_assoc in IH. cbn [app] in IH.
+      rewrite app_length in IH. cbn [List.length] in IH. rewrite Nat.add_1_r in IH. exact IH. }
+    assert (Hget : lget (VList (pre ++ v :: t)) (List.length pre) = Found v).
+    { unfold lget. rewrite nth_error_app2 by lia. rewrite Nat.sub_diag. reflexivity. }
+    rewrite map_app, expected_under. destruct sub as [id| |m'|m'].
+    + rewrite Hget. cbn [dump option_map] in Hd. injection Hd as <-. rewrite Hnext. cbn [leaves map snd]. now rewrite <- app_assoc.
+    + cbn [leaves map app]. exact (Hnext f).
+    + rewrite Hget. rewrite (Hs Hw eq_refl v Hd). rewrite Hnext. unfold expected. now rewrite <- app_assoc.
+    + rewrite Hget. rewrite (Hs Hw eq_refl v Hd). rewrite Hnext. unfold expected. now rewrite <- app_assoc.
+Qed.
+
+Lemma forall2_length {A B} (R : A -> B -> Prop) l l' : Forall2 R l l' -> List.length l = List.length l'.
+Proof. induction 1; cbn; congruence. Qed.
+
+Theorem crown_roundtrip : forall md c, rt_ok md c.
+Proof.
+  intros md. induction c as [i| |m IH|m IH] using crown_ind'; unfold rt_ok; intros Hwf Hb d Ed p f0; try discriminate;
+    cbn [dump] in Ed; cbn [first].
+  - destruct (dump_dict value omit default dumpc m) as [kvs|] eqn:Ek; [|discriminate]. injection Ed as <-.
+    assert (Hloop : (match m with [] => Go1 f0 [] | _ => dict_first info md (first info pol md) m p (VDict kvs) m f0 [] end)
+                    = Go1 (f0 ++ expected (CDict m)) []).
+    { destruct m as [|kc r]; [unfold expected; cbn; now rewrite app_nil_r|].
+      rewrite (dict_first_roundtrip md (kc :: r) kvs p (proj1 Hwf) Ek (kc :: r) (fun _ H => H) (wf_children _ Hwf) IH).
+      unfold expected. cbn [leaves]. rewrite map_flat_map_comm. reflexivity. }
+    destruct m as [|kc r].
+    + cbn in Ek. injection Ek as <-. unfold unknown_keys, unknown_items. cbn. unfold expected. cbn. rewrite app_nil_r. destruct pol; reflexivity.
+    + rewrite Hloop. unfold unknown_keys. rewrite (dumped_has_no_unknown_keys (kc :: r) kvs Ek). cbn. destruct pol; reflexivity.
+  - destruct (dump_list dumpc m) as [vs|] eqn:Ev; [|discriminate]. injection Ed as <-.
+    pose proof (dump_list_forall2 m vs Ev) as HF.
+    pose proof (list_first_roundtrip md (List.length m) p m [] vs HF (wf_items _ Hwf) IH f0) as Hl. cbn [app List.length] in Hl.
+    rewrite Hl. cbn [data_len]. rewrite <- (forall2_length _ _ _ HF). rewrite Nat.ltb_irrefl. rewrite andb_false_r.
+    unfold expected. now rewrite leaves_list.
+Qed.
+
+(* in terms of [load]: for DISABLE and FIRST, load (dump obj) gives back the value of every field and no extras *)
+Corollary load_dump_roundtrip : forall md c d, md <> All -> wf c -> is_leaf c = false -> dumpc c = Some d ->
+  load info pol md c d = Loaded (expected c) [].
+Proof.
+  intros md c d Hmd Hwf Hb Ed. unfold load. destruct md; [| |congruence]; rewrite (crown_roundtrip _ c Hwf Hb d Ed [] []); reflexivity.
+Qed.
+End RoundTrip.
